@@ -176,9 +176,15 @@ static void do_root(Rng& r, int n, const Interval& x) {
   for (double v : pts) {
     if (!(v == v) || fabs(v) > DBL_MAX || !x.contains(v) || a.contains(v)) continue;
     if (n % 2 == 0 && v < 0) continue;
-    mpfr_t xv, rr; mpfr_init2(xv, 53); mpfr_init2(rr, 53); mpfr_set_d(xv, v, MPFR_RNDN);
-    mpfr_rootn_ui(rr, xv, (unsigned long)n, MPFR_RNDD); double dn = mpfr_get_d(rr, MPFR_RNDD); bool nan = mpfr_nan_p(rr);
-    mpfr_rootn_ui(rr, xv, (unsigned long)n, MPFR_RNDU); double up = mpfr_get_d(rr, MPFR_RNDU); nan = nan || mpfr_nan_p(rr);
+    if (n < 0 && v == 0) continue;
+    unsigned long an = (unsigned long)(n < 0 ? -n : n);
+    mpfr_t xv, rr; mpfr_init2(xv, 53); mpfr_init2(rr, 200); mpfr_set_d(xv, v, MPFR_RNDN);
+    mpfr_rootn_ui(rr, xv, an, MPFR_RNDD); double dn = mpfr_get_d(rr, MPFR_RNDD); bool nan = mpfr_nan_p(rr);
+    mpfr_rootn_ui(rr, xv, an, MPFR_RNDU); double up = mpfr_get_d(rr, MPFR_RNDU); nan = nan || mpfr_nan_p(rr);
+    if (!nan && n < 0) { // x^(1/n) = 1 / x^(1/|n|): 1/t is decreasing on each side of 0
+      if (dn == 0 || up == 0 || (dn < 0) != (up < 0)) nan = true;
+      else { mpfr_t a, q; mpfr_init2(a, 200); mpfr_init2(q, 200); mpfr_set_d(a, up, MPFR_RNDN); mpfr_ui_div(q, 1, a, MPFR_RNDD); double lo2 = mpfr_get_d(q, MPFR_RNDD);
+             mpfr_set_d(a, dn, MPFR_RNDN); mpfr_ui_div(q, 1, a, MPFR_RNDU); double hi2 = mpfr_get_d(q, MPFR_RNDU); mpfr_clear(a); mpfr_clear(q); dn = lo2; up = hi2; } }
     mpfr_clear(xv); mpfr_clear(rr); if (nan) continue;
     EMIT("bwdpt root%d %s %s:%s %s => %s\n", n, tok(y).c_str(), hex(dn).c_str(), hex(up).c_str(), hex(v).c_str(), rawtok(a).c_str());
   }
@@ -305,13 +311,13 @@ int main(int argc, char** argv) {
     }
   } else if (wl == "c03t") {
     for (auto& x : LI) for (auto& op : OPT) if (full || r.coin(25)) doT(r, op, x);
-    for (auto& x : LI) if (full || r.coin(30)) { do_saw(r, x); do_root(r, r.range(2, 5), x); }
+    for (auto& x : LI) if (full || r.coin(30)) { do_saw(r, x); do_root(r, r.range(2, 5), x); do_root(r, -(int)r.range(1, 5), x); }
     for (auto& x1 : LI) for (auto& x2 : LI) if (full ? r.below(LI.size()) < 30 : r.below(LI.size()) < 3) do_atan2(r, x1, x2);
     for (long i = 0; i < n; i++) {
       Interval x = rand_itv(r);
       if (r.coin(60)) { double c = r.range(-400, 400) / 32.0; x = Interval(c, c + std::ldexp(1.0, r.range(-20, 4))); }
       for (auto& op : OPT) doT(r, op, x);
-      do_saw(r, x); do_saw(r, x); do_root(r, r.range(2, 5), x);
+      do_saw(r, x); do_saw(r, x); do_root(r, r.range(2, 5), x); { int nn = r.range(-5, 5); if (nn != 0) do_root(r, nn, x); }
       { Interval cb = rand_itv(r), cc = rand_itv(r); if (r.coin(70)) { double c = r.range(-40, 40) / 4.0, d = r.range(-40, 40) / 4.0; cb = Interval(c, c + r.range(0, 16) / 4.0); cc = Interval(d, d + r.range(0, 16) / 4.0); }
         Interval ca = r.coin(60) ? Interval(r.range(-8, 2) / 4.0, r.range(-2, 8) / 4.0) : x; do_chi(r, ca, cb, cc); }
       Interval x2 = rand_itv(r); if (r.coin(60)) { double c = r.range(-40, 40) / 4.0; x2 = Interval(c, c + r.range(0, 16) / 4.0); }
